@@ -843,6 +843,54 @@ pub fn closure_facts(graph: &ModuleGraph) -> Vec<ModFacts> {
   out
 }
 
+/// Input class of F-C12c: some module of package P has `export * from` an entrypoint-side module of
+/// another package Q from which a module with a default export is reachable through `export *`.
+pub fn cross_package_star_default(graph: &ModuleGraph) -> bool {
+  fn pkg_of(s: &str) -> Option<String> {
+    let rest = s.strip_prefix("https://jsr.io/@")?;
+    let parts: Vec<&str> = rest.splitn(4, '/').collect();
+    if parts.len() < 4 { None } else { Some(format!("{}/{}/{}", parts[0], parts[1], parts[2])) }
+  }
+  let mut stars: BTreeMap<String, Vec<String>> = BTreeMap::new();
+  let mut has_default: BTreeSet<String> = BTreeSet::new();
+  for m in graph.modules() {
+    let Module::Js(js) = m else { continue };
+    let Ok(p) = parse_scoped(&js.specifier, &js.source.text, js.media_type) else { continue };
+    let t = module_table(&p);
+    if t.own_exports.contains("default") {
+      has_default.insert(js.specifier.to_string());
+    }
+    let targets: Vec<String> = t
+      .stars
+      .iter()
+      .filter_map(|s| js.dependencies.get(s).and_then(|d| graph.resolve_dependency_from_dep(d, true)).map(|x| x.to_string()))
+      .collect();
+    stars.insert(js.specifier.to_string(), targets);
+  }
+  for (m, ts) in &stars {
+    for t in ts {
+      if pkg_of(m).is_some() && pkg_of(t).is_some() && pkg_of(m) != pkg_of(t) {
+        // star-reachable set from t, t itself excluded for the default test (its own default is
+        // handled by the entrypoint trace)
+        let mut seen: BTreeSet<String> = BTreeSet::new();
+        let mut queue = vec![t.clone()];
+        while let Some(x) = queue.pop() {
+          if !seen.insert(x.clone()) {
+            continue;
+          }
+          if x != *t && has_default.contains(&x) {
+            return true;
+          }
+          for y in stars.get(&x).cloned().unwrap_or_default() {
+            queue.push(y);
+          }
+        }
+      }
+    }
+  }
+  false
+}
+
 // ------------------------------------------------------------------ package generator
 
 /// One generated declaration.
@@ -880,6 +928,8 @@ pub struct GenCfg {
   pub max_pkgs: usize,
   /// percentage of packages that get a fast-check error
   pub fail_pct: usize,
+  /// allow `export * from "jsr:@other/pkg"` (tracing of one package then reaches into another)
+  pub cross_pkg_star: bool,
 }
 
 const PRIMS: &[&str] = &["string", "number", "boolean", "bigint", "unknown", "void", "null", "undefined"];
@@ -1069,9 +1119,9 @@ pub fn gen_world(rng: &mut Rng, cfg: &GenCfg) -> (FcWorld, GenInfo) {
             }
             count(&mut info, "reexport_named");
           }
-          8 => {
+          8 if same || cfg.cross_pkg_star => {
             footer.push_str(&format!("export * from \"{}\";\n", src_text));
-            count(&mut info, "reexport_star");
+            count(&mut info, if same { "reexport_star" } else { "reexport_star_cross_package" });
           }
           _ => {
             footer.push_str(&format!("export * as X{}_{} from \"{}\";\n", k, i, src_text));
@@ -1322,7 +1372,7 @@ fn gen_atom(rng: &mut Rng, types: &[String]) -> String {
 pub fn dump(args: &[String]) {
   let world = if args[0] == "gen" {
     let mut rng = Rng::for_case(args[1].parse().unwrap(), args[2].parse().unwrap());
-    let (w, _) = gen_world(&mut rng, &GenCfg { max_pkgs: 3, fail_pct: 12 });
+    let (w, _) = gen_world(&mut rng, &GenCfg { max_pkgs: 3, fail_pct: 12, cross_pkg_star: true });
     for (k, v) in &w.files {
       println!("# {}\n{}", k, v.0);
     }
@@ -1355,4 +1405,48 @@ pub fn dump_world(world: &FcWorld) {
   for f in closure_facts(&run.graph) {
     println!("{:#?}", f);
   }
+}
+
+/// throw-away probes of cache behaviour (development aid)
+pub fn probe() {
+  fn show(tag: &str, run: &FcRun) {
+    println!("--- {}", tag);
+    for (k, s) in slots(&run.graph) {
+      match s {
+        Slot::Module { .. } => println!("  {} MODULE", k),
+        Slot::Error(d) => println!("  {} ERR {:?}", k, d),
+        Slot::None => println!("  {} none", k),
+      }
+    }
+  }
+  fn pkg(w: &mut FcWorld, exports: &str, files: &[(&str, &str)]) {
+    w.add("https://jsr.io/@s/a/meta.json", "{\"versions\": { \"1.0.0\": {} } }");
+    w.add("https://jsr.io/@s/a/1.0.0_meta.json", &format!("{{ \"exports\": {} }}", exports));
+    for (f, t) in files {
+      w.add(&format!("https://jsr.io/@s/a/1.0.0/{}", f), t);
+    }
+  }
+  // probe 1: failing package with two entrypoints, warm cache
+  let mut w = FcWorld { root: "file:///mod.ts".into(), ..Default::default() };
+  w.add("file:///mod.ts", "import \"jsr:@s/a@1\"; import \"jsr:@s/a@1/b\";");
+  pkg(&mut w, "{ \".\": \"./mod.ts\", \"./b\": \"./b.ts\" }", &[("mod.ts", "export function bad() { return Math.random(); }"), ("b.ts", "export const x: number = 1;")]);
+  let cache = MemCache::default();
+  show("probe1 no cache", &run_fast_check(&w, None));
+  show("probe1 cold cache", &run_fast_check(&w, Some(&cache)));
+  show("probe1 warm cache", &run_fast_check(&w, Some(&cache)));
+  println!("{:?}", cache.log.borrow());
+  // probe 2: diagnostic caused by a re-trace from a later module
+  let mut w = FcWorld { root: "file:///mod.ts".into(), ..Default::default() };
+  w.add("file:///mod.ts", "import \"jsr:@s/a@1\";");
+  let m3 = "import type { X } from \"./m4.ts\";\nexport type A = X;\nclass K { private p: string = \"\"; }\nexport type B = typeof K.prototype.p;\n";
+  pkg(&mut w, "{ \".\": \"./mod.ts\" }", &[("mod.ts", "export type { A } from \"./m3.ts\";"), ("m3.ts", m3), ("m4.ts", "import type { B } from \"./m3.ts\";\nexport type X = B;\n")]);
+  let cache = MemCache::default();
+  show("probe2 v1 cold cache", &run_fast_check(&w, Some(&cache)));
+  for (k, v) in cache.inner.borrow().iter() {
+    println!("cache {:?}: {:?}", k, v.modules.iter().map(|(s, _)| s.as_str()).collect::<Vec<_>>());
+  }
+  w.add("https://jsr.io/@s/a/1.0.0/m4.ts", "export type X = string;\n");
+  show("probe2 v2 no cache", &run_fast_check(&w, None));
+  show("probe2 v2 stale cache", &run_fast_check(&w, Some(&cache)));
+  println!("{:?}", cache.log.borrow());
 }
